@@ -1,7 +1,7 @@
 From Coq Require Import ExtrOcamlBasic.
 Require Import CV.Model.PyPrelude CV.Spec.BV CV.Gen.BvConcrete CV.Model.Ast CV.Model.Build.
 Extraction Language OCaml.
-Extraction "bvmodel.ml" Build.mk Ast.eval Ast.eval_op Ast.symbolic Ast.depth
+Extraction "bvmodel.ml" Build.mk Ast.eval Ast.eval_op Ast.symbolic Ast.depth Ast.elen
   bvv_signed bvv___invert__ bvv___neg__
   bvv___add__ bvv___sub__ bvv___mul__ bvv___mod__ bvv___floordiv__
   bvv___radd__ bvv___rsub__ bvv___rmul__ bvv___rmod__ bvv___rfloordiv__
